@@ -97,7 +97,8 @@ def _scene_specs():
     )
     S["pml_maxz3_dipole"] = dict(
         T=7, shape=[3, 3, 7], faces=_faces(["max_z"], _per("x", "y")), pml=3, eps={"tier": "iso", "pat": "seed"}, mu=_MU,
-        sources=[dict(kind="dipole", box=[[1, 2], [1, 2], [2, 3]], polarization=0, wave=_W)],
+        # gated source (every second step): its on-index differs from the time step, so the reverse pass must use the same mapping
+        sources=[dict(kind="dipole", box=[[1, 2], [1, 2], [2, 3]], polarization=0, wave=_W, switch=dict(interval=2))],
         detectors=[dict(kind="field", box=[[1, 2], [1, 2], [3, 4]], components=["Ex", "Hy"], reduce_volume=False), dict(kind="energy", box=[[0, 3], [0, 3], [0, 4]], reduce_volume=True)],
     )
     # --- conductive media: only r = T-1 is claimed
@@ -131,6 +132,7 @@ def _thorough_specs():
         "dipE0": dict(kind="dipole", polarization=0, wave=_W),
         "dipE1": dict(kind="dipole", polarization=1, wave=_W),
         "dipM2": dict(kind="dipole", polarization=2, source_type="magnetic", wave=_W),
+        "dipE2sw": dict(kind="dipole", polarization=2, wave=_W, switch=dict(interval=3)),
     }
     k = 0
     for sname, sub in subsets.items():
@@ -141,7 +143,7 @@ def _thorough_specs():
                 n_hi = thick if f"max_{a}" in sub else 0
                 shape.append(3 + n_lo + n_hi)
                 lo.append(n_lo)
-            srcname = list(srcs)[k % 3]
+            srcname = list(srcs)[k % 4]
             k += 1
             c = [lo[0] + 1, lo[1] + 1, lo[2] + 1]
             others = {}
